@@ -207,5 +207,26 @@ Definition init_state (keys : list tkey) (file mem : bool) : mstate :=
   {| m_lo := []; m_it := []; m_pt := [];
      m_tr := map (fun k => (k, fresh_trace file mem)) keys; m_saved := []; m_rm := [] |}.
 
+(* endCollect (metrics.py:221-256) visits the traces in turn: a file trace is written and its cache
+   re-armed (_writeTrace), then a consumable trace that still holds rows raises AssertionError -
+   the collection stays open, the traces visited so far have been flushed.  The caller may consume
+   the rest and call endCollect again. *)
+Definition flush_trace (t : tstate) : tstate :=
+  if t_file t then
+    {| t_file := true; t_mem := t_mem t; t_started := true; t_pending := [];
+       t_written := t_written t ++ t_pending t; t_memrows := t_memrows t |}
+  else t.
+
+Fixpoint end_attempt_tr (tr : list (tkey * tstate)) : list (tkey * tstate) :=
+  match tr with
+  | [] => []
+  | (k, t) :: tr' =>
+    if t_mem t && negb (Nat.eqb (length (t_memrows t)) 0)
+    then (k, flush_trace t) :: tr'                       (* assert len(mem_trace) == 0 fails here *)
+    else (k, flush_trace t) :: end_attempt_tr tr'
+  end.
+
+Definition end_attempt (st : mstate) : mstate := with_tr st (end_attempt_tr (m_tr st)).
+
 (* what the CSV file holds after endCollect (the last _writeTrace appends the cached rows) *)
 Definition file_content (t : tstate) : list row := t_written t ++ t_pending t.
